@@ -458,6 +458,19 @@ func (s *Sched) Close() {
 	}
 }
 
+// ParkedAnonAt counts the adopted goroutines (not harness tasks) parked at a point.
+func (s *Sched) ParkedAnonAt(point string) int {
+	s.mu.Lock()
+	defer s.mu.Unlock()
+	n := 0
+	for _, t := range s.tasks {
+		if t.Anon && t.parked && !t.done && t.point == point {
+			n++
+		}
+	}
+	return n
+}
+
 // LockHeld reports the scheduler's view of a modelled lock.
 func (s *Sched) LockHeld(name string) bool {
 	s.mu.Lock()
